@@ -1,6 +1,7 @@
 SPECIFICATION Spec
 CONSTANTS
   Scen1 <- ScenB1
+  ScenBusy <- NoBusy
   Scen2 <- ScenB2
   ClearChoices = {TRUE, FALSE}
   Installs = {TRUE}
